@@ -32,6 +32,27 @@ CHECKS['C17'] = (
  'must equal the exactly computed expectation, exactly one k-bit draw is consumed and the outcome is replay-deterministic.',
  'Neighbours/overflow arms come from the C01 oracle; counts past the largest value are judged only where overflow goes to '
  'infinity; ASSERT mode not exercised; k <= 5.', '§5 C17')
+CHECKS['C10'] = (
+ 'bounded exhaustive enumeration of source contexts x modes x overflow modes x chain sub-sequences x operand grid, '
+ 'metamorphic comparison of the original quantizer with every distinct lowered program; identity rewrites run on all '
+ 'members of pinned argument formats',
+ 'Every small configuration of every context family is captured by a quantizer `with C: y = round(x)`; every prefix, single '
+ 'step and (thorough) every order-preserving sub-sequence of unfold_special/unfold_neg_zero/unfold_overflow[early]/'
+ 'float_to_fixed/rescale_fixed/simplify is applied and each distinct resulting program is run on the whole per-binade '
+ 'operand grid plus zeros, infinities and NaN and compared with the original; elim_round/insert_round are run on programs '
+ 'pinned by monomorphize to every (argument format, context) pair of a pool over ALL member pairs.',
+ 'Operands are Float values (dyadic); where=None application; original side tied to the oracle by C01; stochastic contexts '
+ 'not lowered.', '§5 C10')
+CHECKS['C16'] = (
+ 'exhaustive enumeration of every bit pattern and every representable value of every small encodable format, compared '
+ 'with an independent layout decoder and the value set derived from it',
+ 'For every IEEE/EFloat configuration up to 6 (thorough 8) bits (every NaN kind, infinity option, exponent offset), every '
+ 'two''s-complement / sign-magnitude format up to 8 bits and every exponential format up to 6 bits: decode of every pattern, '
+ 'encode/decode round trips, ordinal map strictly increasing/contiguous/invertible, next_up/next_down, min/max queries, '
+ 'normalisation and representability against the decoded value set; constructor validity against the usability rule; all '
+ '65536 binary16 patterns against numpy.',
+ 'binary32/64 are checked on a structured subset only (declared); decoders written from the published layouts; numpy/struct '
+ 'trusted for the platform formats.', '§5 C16')
 PENDING = {}
 
 def main():
